@@ -49,6 +49,7 @@ pub fn run(ctx: &mut Ctx) {
             v.extend([0usize, 1, cap / 2 + 1]);
             v.extend([7, 8, 9, cap.saturating_sub(1), 63.min(cap), 64.min(cap), 65.min(cap)]);
         }
+        v.retain(|x| *x <= cap);
         v.sort();
         v.dedup();
         v
